@@ -319,8 +319,12 @@ pub mod unix {
                                     });
                                 }
                                 Err(err) => {
+                                    // E.g. the process is out of file descriptors. The listener
+                                    // is still fine: keep it. Leaving this loop would drop it
+                                    // and bind the path again, which fails (the socket file is
+                                    // still there), so nobody would listen any more.
                                     warn!("Signal listener got an error: {err:?}");
-                                    break;
+                                    tokio::time::sleep(std::time::Duration::from_millis(100)).await;
                                 }
                             }
                         }
